@@ -255,8 +255,9 @@ func (l *EventLog) Hash() string { return fmt.Sprintf("%016x", l.h.h) }
 // Sentinel errors injected through callbacks and rows.
 
 type SimErr struct {
-	ID  int
-	Src string
+	ID    int
+	Src   string
+	Batch int // 0: raised straight into the table; k>0: raised on row k-1 while it was not yet in a table
 }
 
 func (e *SimErr) Error() string { return "simErr#" + strconv.Itoa(e.ID) + "(" + e.Src + ")" }
